@@ -1617,3 +1617,49 @@ Proof.
     rewrite (transform_result_spec (restore tidR k) (restore_total tidR k) (restorable k) raw (restore_total_ok tidR k) Hr).
     unfold inner_eqb. cbn [res_eqb fst snd]. rewrite t_vals_eqb_refl, t_kw_eqb_refl, t_val_eqb_refl. reflexivity.
 Qed.
+(* 16. the fuel of add_node is sufficient: the model computes the recursion of           *)
+(*     LinkedGraph.add_node (stated as a big-step relation without fuel)                 *)
+(* ==================================================================================== *)
+Inductive AddNode (ns : list onode) : nat -> list nat -> list nat -> Prop :=
+| AN_present : forall u acc, In u acc -> AddNode ns u acc acc
+| AN_unknown : forall u acc, ~ In u acc -> find_node ns u = None -> AddNode ns u acc acc
+| AN_new : forall u acc nd acc', ~ In u acc -> find_node ns u = Some nd ->
+    AddParents ns (opar nd) (acc ++ [u]) acc' -> AddNode ns u acc acc'
+with AddParents (ns : list onode) : list nat -> list nat -> list nat -> Prop :=
+| AP_nil : forall acc, AddParents ns [] acc acc
+| AP_cons : forall p ps acc acc1 acc2,
+    AddNode ns p acc acc1 -> AddParents ns ps acc1 acc2 -> AddParents ns (p :: ps) acc acc2.
+
+Lemma order_inv_length : forall ns acc, order_inv ns acc -> List.length acc <= List.length (uids ns).
+Proof. intros ns acc [H1 H2]. apply NoDup_incl_length; assumption. Qed.
+
+Theorem add_node_fuel_sufficient : forall fuel ns u acc,
+  order_inv ns acc -> List.length (uids ns) - List.length acc < fuel ->
+  AddNode ns u acc (add_node fuel ns u acc).
+Proof.
+  induction fuel as [|f IH]; intros ns u acc HI Hf; [lia|]. cbn [add_node].
+  destruct (memb u acc) eqn:Em; [apply AN_present, memb_In; exact Em|].
+  apply memb_false in Em.
+  destruct (find_node ns u) as [nd|] eqn:Ef; [|apply AN_unknown; assumption].
+  apply (AN_new ns u acc nd); try assumption.
+  assert (HI' : order_inv ns (acc ++ [u])).
+  { destruct HI as [Hnd Hincl]. split; [apply NoDup_snoc; assumption|].
+    apply incl_app; [assumption|]. intros x [<-|[]]. apply find_node_some in Ef as [Hin <-].
+    apply in_map. exact Hin. }
+  assert (Hf' : List.length (uids ns) - List.length (acc ++ [u]) < f).
+  { pose proof (order_inv_length _ _ HI') as Hl. rewrite app_length in *. cbn [List.length] in *. lia. }
+  clear Ef. revert HI' Hf'. generalize (acc ++ [u]) as a. induction (opar nd) as [|p ps IHp]; intros a Ha Hfa; cbn [fold_left].
+  - constructor.
+  - destruct (add_node_inv f ns p a Ha) as [H1 H2].
+    apply (AP_cons ns p ps a (add_node f ns p a)); [apply IH; assumption|].
+    apply IHp; [exact H1|].
+    assert (List.length a <= List.length (add_node f ns p a)) by (apply NoDup_incl_length; [apply Ha|exact H2]).
+    lia.
+Qed.
+
+(* LinkedGraph.__init__: the fuel S (length ns) used by graph_order always suffices *)
+Theorem graph_order_fuel : forall ns u acc, order_inv ns acc ->
+  AddNode ns u acc (add_node (S (List.length ns)) ns u acc).
+Proof.
+  intros ns u acc HI. apply add_node_fuel_sufficient; [exact HI|]. unfold uids. rewrite map_length. lia.
+Qed.
